@@ -24,11 +24,12 @@ store == <<grp, man>>
 \* two members without identity: selections by identity must not confuse them with each other
 IdOf(m) == CASE m = 1 -> "i1" [] m = 2 -> "" [] m = 3 -> "" [] m = 4 -> "i2" [] OTHER -> ""
 Mem(m) == [m |-> m, id |-> IdOf(m)]
-\* all lists of 1..MaxList distinct members
+\* all lists of 1..MaxList members; a csvpath without an identity may occur more than once in a list (the same text twice is
+\* two members of the group: count, order and the ':from'/':to' slices include both)
 RECURSIVE ListsOf(_)
 ListsOf(n) == IF n = 0 THEN {<<>>}
               ELSE {Append(l, Mem(m)) : l \in ListsOf(n - 1), m \in 1..NMembers}
-Distinct(l) == \A i, j \in 1..Len(l) : i # j => l[i].m # l[j].m
+Distinct(l) == \A i, j \in 1..Len(l) : (i # j /\ l[i].m = l[j].m) => l[i].id = ""
 Lists == {l \in UNION {ListsOf(n) : n \in 1..MaxList} : Distinct(l)}
 Last(q) == q[Len(q)]
 
